@@ -1,2 +1,406 @@
-/- C01 — theorems under construction -/
+/-
+C01 — every command executes exactly once, fed by its finished dependencies.
+
+The run loop of the model (`runCmd`, `run`) is generic in the value type and in what `execute` computes (`Sem`).
+Acyclicity is a premise here (a rank function on the read relation); C14 shows that `run` only evaluates programs whose
+reference graph has one.
+-/
 import MPilot.Model.Program
+import Mathlib.Data.List.Perm.Basic
+import Mathlib.Data.List.Nodup
+import Mathlib.Tactic.Common
+
+namespace MPilot.C01
+open MPilot
+
+variable {Val : Type}
+
+def starts (log : List Ev) : List String := log.filterMap fun e => match e with | .start c => some c | _ => none
+def finishes (log : List Ev) : List String := log.filterMap fun e => match e with | .finish c => some c | _ => none
+def names (st : St Val) : List String := st.memo.map (·.1)
+
+@[simp] theorem starts_append (a b : List Ev) : starts (a ++ b) = starts a ++ starts b := by simp [starts]
+@[simp] theorem finishes_append (a b : List Ev) : finishes (a ++ b) = finishes a ++ finishes b := by simp [finishes]
+
+theorem get?_isSome_iff (st : St Val) (n : String) : (st.get? n).isSome = true ↔ n ∈ names st := by
+  unfold St.get? names
+  induction st.memo with
+  | nil => simp
+  | cons kv t ih =>
+    simp only [List.find?_cons, List.map_cons, List.mem_cons]
+    by_cases h : kv.1 == n
+    · simp [h]; left; exact (beq_iff_eq.mp h).symm
+    · simp only [h]
+      rw [ih]
+      constructor
+      · exact Or.inr
+      · rintro (e | e)
+        · exact absurd (beq_iff_eq.mpr e.symm) h
+        · exact e
+
+theorem get?_some_of_mem (st : St Val) (n : String) (h : n ∈ names st) : ∃ v, st.get? n = some v := by
+  have := (get?_isSome_iff st n).mpr h
+  exact Option.isSome_iff_exists.mp this
+
+/-- the invariant of the evaluation, with `O` = commands whose `execute` has been entered but has not returned yet -/
+structure InvO (sem : Sem Val) (p : Program) (O : List String) (st : St Val) : Prop where
+  nodup : (names st).Nodup
+  fin : finishes st.log = names st
+  bal : (starts st.log).Perm (finishes st.log ++ O)
+  ordered : ∀ pre n post, names st = pre ++ n :: post → ∀ c, p.find? n = some c → ∀ d ∈ sem.pulls c, d ∈ pre
+
+/-- what one successful evaluation step guarantees -/
+structure Step (sem : Sem Val) (p : Program) (r : String → Nat) (O : List String) (bound : Nat) (st st' : St Val) : Prop where
+  inv : InvO sem p O st'
+  logExt : ∃ ext, st'.log = st.log ++ ext
+  memoExt : ∃ m, st'.memo = st.memo ++ m ∧ ∀ x ∈ m.map (·.1), r x < bound
+
+theorem Step.names_ext {sem : Sem Val} {p r O b st st'} (h : Step sem p r O b st st') :
+    ∃ m : List String, names st' = names st ++ m ∧ ∀ x ∈ m, r x < b := by
+  obtain ⟨m, hm, hr⟩ := h.memoExt
+  exact ⟨m.map (·.1), by simp [names, hm], hr⟩
+
+theorem Step.refl {sem : Sem Val} {p r O b st} (h : InvO sem p O st) : Step sem p r O b st st :=
+  ⟨h, ⟨[], by simp⟩, ⟨[], by simp, by simp⟩⟩
+
+theorem Step.trans {sem : Sem Val} {p r O b1 b2 st1 st2 st3} (h1 : Step sem p r O b1 st1 st2) (h2 : Step sem p r O b2 st2 st3)
+    (b : Nat) (hb1 : b1 ≤ b) (hb2 : b2 ≤ b) : Step sem p r O b st1 st3 := by
+  obtain ⟨e1, he1⟩ := h1.logExt
+  obtain ⟨e2, he2⟩ := h2.logExt
+  obtain ⟨m1, hm1, hr1⟩ := h1.memoExt
+  obtain ⟨m2, hm2, hr2⟩ := h2.memoExt
+  refine ⟨h2.inv, ⟨e1 ++ e2, by rw [he2, he1, List.append_assoc]⟩, ⟨m1 ++ m2, by rw [hm2, hm1, List.append_assoc], ?_⟩⟩
+  intro x hx
+  simp only [List.map_append, List.mem_append] at hx
+  rcases hx with hx | hx
+  · exact Nat.lt_of_lt_of_le (hr1 x hx) hb1
+  · exact Nat.lt_of_lt_of_le (hr2 x hx) hb2
+
+section
+variable (sem : Sem Val) (p : Program) (r : String → Nat)
+
+/-- acyclicity of the read relation, as a rank function -/
+def Ranked : Prop := ∀ n c, p.find? n = some c → ∀ d ∈ sem.pulls c, r d < r n
+
+/-- the reading loop of a body: every result read is finished afterwards, nothing of rank ≥ `bound` was executed -/
+theorem pull_ok (fuel : Nat)
+    (ih : ∀ O st n st', InvO sem p O st → runCmd sem p fuel st n = (st', none) →
+      Step sem p r O (r n + 1) st st' ∧ n ∈ names st')
+    (O : List String) (bound : Nat) :
+    ∀ (ds : List String) (s : St Val) (acc : List Val) (s' : St Val) (vals : List Val),
+      (∀ d ∈ ds, r d < bound) → InvO sem p O s →
+      runCmd.pull sem p fuel ds s acc = (s', .ok vals) →
+      Step sem p r O bound s s' ∧ ∀ d ∈ ds, d ∈ names s' := by
+  intro ds
+  induction ds with
+  | nil =>
+    intro s acc s' vals _ hinv h
+    unfold runCmd.pull at h
+    injection h with h1 h2; subst h1
+    exact ⟨Step.refl hinv, by simp⟩
+  | cons d ds ihd =>
+    intro s acc s' vals hds hinv h
+    unfold runCmd.pull at h
+    have hd := hds d (List.mem_cons_self ..)
+    cases hrun : runCmd sem p fuel s d with
+    | mk s1 oe =>
+      rw [hrun] at h
+      cases oe with
+      | some e => simp at h
+      | none =>
+        simp only at h
+        obtain ⟨step1, hmem1⟩ := ih O s d s1 hinv hrun
+        cases hget : s1.get? d with
+        | none => rw [hget] at h; simp at h
+        | some v =>
+          rw [hget] at h
+          simp only at h
+          obtain ⟨step2, hall⟩ := ihd s1 (v :: acc) s' vals (fun x hx => hds x (List.mem_cons_of_mem _ hx)) step1.inv h
+          refine ⟨Step.trans step1 step2 bound (by omega) (Nat.le_refl _), ?_⟩
+          intro x hx
+          rcases List.mem_cons.mp hx with rfl | hx
+          · obtain ⟨m, hm, _⟩ := step2.names_ext
+            rw [hm]; exact List.mem_append_left _ hmem1
+          · exact hall x hx
+
+/-- **core of C01**: a successful `Command.run` of `n` (in an acyclic program) preserves the invariant, finishes `n`,
+only extends log and memo, and executes nothing of higher rank than `n` -/
+theorem runCmd_ok (hr : Ranked sem p r) :
+    ∀ (fuel : Nat) (O : List String) (st : St Val) (n : String) (st' : St Val), InvO sem p O st →
+      runCmd sem p fuel st n = (st', none) → Step sem p r O (r n + 1) st st' ∧ n ∈ names st' := by
+  intro fuel
+  induction fuel with
+  | zero => intro O st n st' _ h; unfold runCmd at h; simp at h
+  | succ fuel ih =>
+    intro O st n st' hinv h
+    unfold runCmd at h
+    by_cases hmemo : (st.get? n).isSome = true
+    · rw [if_pos hmemo] at h
+      injection h with h1 _; subst h1
+      exact ⟨Step.refl hinv, (get?_isSome_iff st n).mp hmemo⟩
+    · rw [if_neg hmemo] at h
+      have hnot : n ∉ names st := fun hm => hmemo ((get?_isSome_iff st n).mpr hm)
+      cases hfind : p.find? n with
+      | none => rw [hfind] at h; simp at h
+      | some c =>
+        rw [hfind] at h
+        simp only at h
+        cases hval : validateParams (mkCtx sem p st) c with
+        | error e => rw [hval] at h; simp at h
+        | ok u =>
+          rw [hval] at h
+          simp only at h
+          -- state after entering the body
+          have hinv1 : InvO sem p (n :: O) { memo := st.memo, log := st.log ++ [Ev.start n] } := by
+            refine ⟨hinv.nodup, ?_, ?_, hinv.ordered⟩
+            · show finishes (st.log ++ [Ev.start n]) = names st
+              rw [finishes_append, hinv.fin]; simp [finishes]
+            · show (starts (st.log ++ [Ev.start n])).Perm (finishes (st.log ++ [Ev.start n]) ++ n :: O)
+              rw [starts_append, finishes_append]
+              have e1 : starts [Ev.start n] = [n] := rfl
+              have e2 : finishes [Ev.start n] = [] := rfl
+              rw [e1, e2, List.append_nil]
+              exact (hinv.bal.append_right [n]).trans (by
+                rw [List.append_assoc]
+                exact List.Perm.append_left _ (List.perm_append_comm.trans (by simp)))
+          cases hpull : runCmd.pull sem p fuel (sem.pulls c) { memo := st.memo, log := st.log ++ [Ev.start n] } [] with
+          | mk s2 ev =>
+            rw [hpull] at h
+            cases ev with
+            | error e => simp at h
+            | ok vals =>
+              simp only at h
+              cases hcomp : sem.compute c vals with
+              | error e => rw [hcomp] at h; simp at h
+              | ok v =>
+                rw [hcomp] at h
+                simp only at h
+                injection h with h1 _; subst h1
+                obtain ⟨step2, hall⟩ := pull_ok sem p r fuel ih (n :: O) (r n) (sem.pulls c) _ [] s2 vals
+                  (fun d hd => hr n c hfind d hd) hinv1 hpull
+                obtain ⟨ext, hext⟩ := step2.logExt
+                obtain ⟨m, hm, hmr⟩ := step2.memoExt
+                have hnames2 : names s2 = names st ++ m.map (·.1) := by simp [names, hm]
+                have hn2 : n ∉ names s2 := by
+                  rw [hnames2]
+                  intro hmem
+                  rcases List.mem_append.mp hmem with hmem | hmem
+                  · exact hnot hmem
+                  · exact absurd (hmr n hmem) (Nat.lt_irrefl _)
+                have hN : names ({ memo := s2.memo ++ [(n, v)], log := s2.log ++ [Ev.finish n] } : St Val) = names s2 ++ [n] := by
+                  simp [names]
+                refine ⟨⟨⟨?_, ?_, ?_, ?_⟩, ⟨[Ev.start n] ++ ext ++ [Ev.finish n], ?_⟩, ⟨m ++ [(n, v)], ?_, ?_⟩⟩, ?_⟩
+                · -- nodup
+                  rw [hN]
+                  exact List.nodup_append.mpr ⟨step2.inv.nodup, by simp, by
+                    intro a ha b hb; simp at hb; subst hb; intro e; subst e; exact hn2 ha⟩
+                · rw [hN]
+                  show finishes (s2.log ++ [Ev.finish n]) = names s2 ++ [n]
+                  rw [finishes_append, step2.inv.fin]; rfl
+                · show (starts (s2.log ++ [Ev.finish n])).Perm (finishes (s2.log ++ [Ev.finish n]) ++ O)
+                  rw [starts_append, finishes_append]
+                  have e1 : starts [Ev.finish n] = [] := rfl
+                  have e2 : finishes [Ev.finish n] = [n] := rfl
+                  rw [e1, e2, List.append_nil]
+                  exact step2.inv.bal.trans (by
+                    rw [List.append_assoc]
+                    exact List.Perm.append_left _ (by simp))
+                · -- dependencies first
+                  intro pre x post hsplit cx hcx d hd
+                  have hsplit' : names s2 ++ [n] = pre ++ x :: post := by rw [← hN]; exact hsplit
+                  by_cases hpost : post = []
+                  · subst hpost
+                    have := List.append_inj' hsplit' (by simp)
+                    obtain ⟨h1, h2⟩ := this
+                    injection h2 with h2 _; subst h2; subst h1
+                    rw [hfind] at hcx; injection hcx with hcx; subst hcx
+                    exact hall d hd
+                  · obtain ⟨post', y, rfl⟩ : ∃ post' y, post = post' ++ [y] := by
+                      exact ⟨post.dropLast, post.getLast hpost, (List.dropLast_append_getLast hpost).symm⟩
+                    have : names s2 ++ [n] = (pre ++ x :: post') ++ [y] := by rw [hsplit']; simp
+                    have h3 := List.append_inj' this (by simp)
+                    exact step2.inv.ordered pre x post' (by rw [h3.1]) cx hcx d hd
+                · show s2.log ++ [Ev.finish n] = st.log ++ ([Ev.start n] ++ ext ++ [Ev.finish n])
+                  rw [hext]; simp
+                · show s2.memo ++ [(n, v)] = st.memo ++ (m ++ [(n, v)])
+                  rw [hm]; simp
+                · intro x hx
+                  simp only [List.map_append, List.map_cons, List.map_nil, List.mem_append, List.mem_singleton] at hx
+                  rcases hx with hx | hx
+                  · have := hmr x hx; omega
+                  · subst hx; exact Nat.lt_succ_self _
+                · rw [hN]; simp
+
+/-- the loop of `Program.run` over the leaves -/
+theorem go_ok (hr : Ranked sem p r) :
+    ∀ (leaves : List PCmd) (st st' : St Val), InvO sem p [] st → run.go sem p leaves st = (st', none) →
+      InvO sem p [] st' ∧ (∀ l ∈ leaves, l.resultName ∈ names st') ∧ (∃ ext, st'.log = st.log ++ ext) ∧
+      (∃ m, names st' = names st ++ m) := by
+  intro leaves
+  induction leaves with
+  | nil =>
+    intro st st' hinv h
+    unfold run.go at h
+    injection h with h1 _; subst h1
+    exact ⟨hinv, by simp, ⟨[], by simp⟩, ⟨[], by simp⟩⟩
+  | cons c rest ih =>
+    intro st st' hinv h
+    unfold run.go at h
+    cases hrun : runCmd sem p (p.cmds.length + 1) st c.resultName with
+    | mk s1 oe =>
+      rw [hrun] at h
+      cases oe with
+      | some e => simp at h
+      | none =>
+        simp only at h
+        obtain ⟨step1, hmem1⟩ := runCmd_ok sem p r hr _ [] st c.resultName s1 hinv hrun
+        obtain ⟨hinv', hall, ⟨e2, he2⟩, ⟨m2, hm2⟩⟩ := ih s1 st' step1.inv h
+        obtain ⟨e1, he1⟩ := step1.logExt
+        obtain ⟨m1, hm1, _⟩ := step1.names_ext
+        refine ⟨hinv', ?_, ⟨e1 ++ e2, by rw [he2, he1, List.append_assoc]⟩, ⟨m1 ++ m2, by rw [hm2, hm1, List.append_assoc]⟩⟩
+        intro l hl
+        rcases List.mem_cons.mp hl with rfl | hl
+        · rw [hm2]; exact List.mem_append_left _ hmem1
+        · exact hall l hl
+
+/-- in a balanced log without repeated finishes, nothing starts twice, and what finished started exactly once -/
+theorem once_of_inv {st : St Val} (h : InvO sem p [] st) :
+    (starts st.log).Nodup ∧ (finishes st.log).Nodup ∧ ∀ n, n ∈ names st → (starts st.log).count n = 1 ∧ (finishes st.log).count n = 1 := by
+  have hbal : (starts st.log).Perm (finishes st.log) := by simpa using h.bal
+  have hfn : (finishes st.log).Nodup := by rw [h.fin]; exact h.nodup
+  have hsn : (starts st.log).Nodup := hbal.nodup_iff.mpr hfn
+  refine ⟨hsn, hfn, fun n hn => ?_⟩
+  have hf : n ∈ finishes st.log := by rw [h.fin]; exact hn
+  have hs : n ∈ starts st.log := hbal.mem_iff.mpr hf
+  exact ⟨List.count_eq_one_of_mem hsn hs, List.count_eq_one_of_mem hfn hf⟩
+
+/-- the empty state satisfies the invariant -/
+theorem inv_init : InvO sem p [] ({ memo := [], log := [] } : St Val) :=
+  ⟨by simp [names], by simp [finishes, names], by simp [starts, finishes], by
+    intro pre n post h; simp [names] at h⟩
+
+/-- **C01 (at most once, dependencies first, memoised).**  Whenever `Program.run` succeeds on an acyclic program, starting from any
+state reached by earlier successful runs/result reads: no command's body has been entered twice, every finished command
+entered its body exactly once, every finished command's inputs finished before it, and the log only grew. -/
+theorem run_ok (hr : Ranked sem p r) (st st' : St Val) (hinv : InvO sem p [] st) (h : run sem p st = (st', none)) :
+    InvO sem p [] st' ∧ (∃ ext, st'.log = st.log ++ ext) := by
+  unfold run at h
+  split at h
+  · simp at h
+  · split at h
+    · simp at h
+    · obtain ⟨hinv', _, hext, _⟩ := go_ok sem p r hr _ st st' hinv h
+      exact ⟨hinv', hext⟩
+
+/-- a result read (`Command.result`) after which the command is finished; same guarantees -/
+theorem result_ok (hr : Ranked sem p r) (fuel : Nat) (st st' : St Val) (n : String) (hinv : InvO sem p [] st)
+    (h : runCmd sem p fuel st n = (st', none)) : InvO sem p [] st' ∧ n ∈ names st' ∧ (∃ ext, st'.log = st.log ++ ext) := by
+  obtain ⟨step, hmem⟩ := runCmd_ok sem p r hr fuel [] st n st' hinv h
+  exact ⟨step.inv, hmem, step.logExt⟩
+
+/-- **reading a finished result executes nothing**: the state does not change at all -/
+theorem result_memoised (fuel : Nat) (st : St Val) (n : String) (h : n ∈ names st) :
+    runCmd sem p (fuel + 1) st n = (st, none) := by
+  unfold runCmd
+  rw [if_pos ((get?_isSome_iff st n).mpr h)]
+
+theorem go_memoised : ∀ (leaves : List PCmd) (st : St Val), (∀ l ∈ leaves, l.resultName ∈ names st) →
+    run.go sem p leaves st = (st, none) := by
+  intro leaves
+  induction leaves with
+  | nil => intro st _; unfold run.go; rfl
+  | cons c rest ih =>
+    intro st hall
+    unfold run.go
+    rw [result_memoised sem p p.cmds.length st c.resultName (hall c (List.mem_cons_self ..))]
+    exact ih st fun l hl => hall l (List.mem_cons_of_mem _ hl)
+
+/-- **running the program again executes nothing further**: once every command is finished, `run` leaves log and memo as they are
+(whether its pre-pass succeeds or not) -/
+theorem run_idempotent (st : St Val) (hall : ∀ c ∈ p.cmds, c.resultName ∈ names st) : (run sem p st).1 = st := by
+  unfold run
+  split
+  · rfl
+  · split
+    · rfl
+    · rw [go_memoised sem p (leavesOf p _) st fun l hl => hall l (List.mem_filter.mp (by unfold leavesOf at hl; exact hl)).1]
+
+/-- dependencies are finished first: in the order of finishing, everything a command reads precedes it -/
+theorem deps_first {st : St Val} (h : InvO sem p [] st) (pre : List String) (n : String) (post : List String)
+    (hs : finishes st.log = pre ++ n :: post) (c : PCmd) (hc : p.find? n = some c) : ∀ d ∈ sem.pulls c, d ∈ pre :=
+  h.ordered pre n post (by rw [← h.fin]; exact hs) c hc
+
+theorem exists_bound (l : List PCmd) : ∃ M, ∀ c ∈ l, r c.resultName ≤ M := by
+  induction l with
+  | nil => exact ⟨0, by simp⟩
+  | cons c t ih =>
+    obtain ⟨M, hM⟩ := ih
+    refine ⟨max M (r c.resultName), ?_⟩
+    intro x hx
+    rcases List.mem_cons.mp hx with rfl | hx
+    · exact Nat.le_max_right _ _
+    · exact Nat.le_trans (hM x hx) (Nat.le_max_left _ _)
+
+/-- finished commands are closed under "reads" -/
+theorem closed_of_inv {st : St Val} (h : InvO sem p [] st) (n : String) (c : PCmd) (hn : n ∈ names st)
+    (hc : p.find? n = some c) : ∀ d ∈ sem.pulls c, d ∈ names st := by
+  intro d hd
+  obtain ⟨pre, post, hsplit⟩ := List.append_of_mem hn
+  rw [hsplit]
+  exact List.mem_append_left _ (h.ordered pre n post hsplit c hc d hd)
+
+/-- **C01 (at least once).**  If `run` succeeds on an acyclic program with distinct result names, *every* command has finished —
+provided every command that is directly referenced is read by the body of its consumer (`hcover`: the one fact about command bodies
+this needs; checked for every built-in by the correspondence, which logs each result read). -/
+theorem run_executes_all (hr : Ranked sem p r) (st st' : St Val) (hinv : InvO sem p [] st)
+    (hnd : ∀ c ∈ p.cmds, p.find? c.resultName = some c)
+    (hcover : ∀ info, prepass (mkCtx sem p st) p.cmds = .ok info → ∀ c ∈ p.cmds,
+        (directOf info).contains c.resultName = true → ∃ c' ∈ p.cmds, c.resultName ∈ sem.pulls c')
+    (h : run sem p st = (st', none)) : ∀ c ∈ p.cmds, c.resultName ∈ names st' := by
+  unfold run at h
+  split at h
+  · simp at h
+  · rename_i info hpre
+    split at h
+    · simp at h
+    · obtain ⟨hinv', hleaves, _, _⟩ := go_ok sem p r hr _ st st' hinv h
+      obtain ⟨M, hM⟩ := exists_bound r p.cmds
+      -- induction on the distance of the rank from the maximal rank
+      have key : ∀ k, ∀ c ∈ p.cmds, M - r c.resultName ≤ k → c.resultName ∈ names st' := by
+        intro k
+        induction k with
+        | zero =>
+          intro c hc hk
+          by_cases hl : (directOf info).contains c.resultName = true
+          · obtain ⟨c', hc', hpull⟩ := hcover info hpre c hc hl
+            have h1 := hr c'.resultName c' (hnd c' hc') c.resultName hpull
+            have h2 := hM c' hc'
+            omega
+          · exact hleaves c (by unfold leavesOf; exact List.mem_filter.mpr ⟨hc, by simpa using hl⟩)
+        | succ k ih =>
+          intro c hc hk
+          by_cases hl : (directOf info).contains c.resultName = true
+          · obtain ⟨c', hc', hpull⟩ := hcover info hpre c hc hl
+            have h1 := hr c'.resultName c' (hnd c' hc') c.resultName hpull
+            have h2 := hM c' hc'
+            have hfin := ih c' hc' (by omega)
+            exact closed_of_inv sem p hinv' c'.resultName c' hfin (hnd c' hc') c.resultName hpull
+          · exact hleaves c (by unfold leavesOf; exact List.mem_filter.mpr ⟨hc, by simpa using hl⟩)
+      intro c hc
+      exact key (M - r c.resultName) c hc (Nat.le_refl _)
+
+/-- **C01, assembled**: after a successful `run` from the initial state, every command of an acyclic program was executed exactly once -/
+theorem run_executes_each_exactly_once (hr : Ranked sem p r) (st' : St Val)
+    (hnd : ∀ c ∈ p.cmds, p.find? c.resultName = some c)
+    (hcover : ∀ info, prepass (mkCtx sem p ({ memo := [], log := [] } : St Val)) p.cmds = .ok info → ∀ c ∈ p.cmds,
+        (directOf info).contains c.resultName = true → ∃ c' ∈ p.cmds, c.resultName ∈ sem.pulls c')
+    (h : run sem p { memo := [], log := [] } = (st', none)) :
+    ∀ c ∈ p.cmds, (starts st'.log).count c.resultName = 1 ∧ (finishes st'.log).count c.resultName = 1 := by
+  have hall := run_executes_all sem p r hr _ st' (inv_init sem p) hnd hcover h
+  have hinv := (run_ok sem p r hr _ st' (inv_init sem p) h).1
+  intro c hc
+  exact (once_of_inv sem p hinv).2.2 c.resultName (hall c hc)
+
+end
+
+end MPilot.C01
